@@ -258,7 +258,9 @@ FLOW_FUNCS = ['__config_read', 'config_read', 'config_read_string', 'config_read
               'config_clear', 'config_destroy', 'config_write', '__config_locale_override', '__config_locale_restore',
               'config_setting_add', 'config_setting_remove_elem', '__config_list_add', '__config_list_remove', 'config_setting_create',
               'config_setting_set_int_elem', 'config_setting_set_int64_elem', 'config_setting_set_float_elem',
-              'config_setting_set_bool_elem', 'config_setting_set_string_elem']
+              'config_setting_set_bool_elem', 'config_setting_set_string_elem',
+              '__config_list_search', 'config_setting_lookup_const', 'config_setting_index', 'config_setting_get_elem',
+              'config_setting_get_member']
 # the include stack (lib/scanctx.c)
 FLOW_FUNCS_SCANCTX = ['libconfig_scanctx_push_include', 'libconfig_scanctx_next_include_file', 'libconfig_scanctx_pop_include',
                       'libconfig_scanctx_cleanup', 'libconfig_scanctx_init', 'libconfig_scanctx_current_filename']
@@ -364,7 +366,11 @@ class FlowFn:
             if body is None:
                 return '(.loopB %s %s)' % (_lean_str('for(' + head + ')'), self.stmt(parts[-1]))
             return '(.loop %s [%s])' % (_lean_str('for(' + head + ')'), ', '.join(_lean_str(t) for t in body))
-        if k in ('DoStmt', 'SwitchStmt', 'GotoStmt', 'LabelStmt', 'BreakStmt', 'ContinueStmt'):
+        if k == 'BreakStmt':
+            return '.brk'
+        if k == 'ContinueStmt':
+            return '.cont'
+        if k in ('DoStmt', 'SwitchStmt', 'GotoStmt', 'LabelStmt'):
             self.bad.append(k); return '(.other %s)' % _lean_str(k)
         return '(.stmt %s)' % _lean_str(self.text(n).rstrip(';'))
 
